@@ -684,12 +684,49 @@ package sse
 //@   ensures other_all_subscriptions_untouched: all(k, "int", k != id ==> has(c.callbacksAll, k) == old(has(c.callbacksAll, k)) && c.callbacksAll[k] == old(c.callbacksAll[k]))
 //@   ensures typed_subscriptions_untouched: all(e, "string", all(k, "int", reg(c, e, k) == old(reg(c, e, k)) && cbof(c, e, k) == old(cbof(c, e, k))))
 
+// The exported subscription methods are thin wrappers; their contracts pin the event type they register under
+// (SubscribeMessages: the empty type - go-sse keeps Type empty instead of defaulting to "message").
+//@ func Connection.SubscribeEvent
+//@   requires c != nil && connok(c)
+//@   assume id_counter_does_not_overflow: c.callbackID < 9223372036854775807
+//@   modifies c.callbackID, mapcell(c.callbacks), mapcell(c.callbacks[typ]), mapcell(old(c.callbacks[typ]))
+//@   ensures invariant_kept: connok(c)
+//@   ensures registered_under_the_given_type: reg(c, typ, old(c.callbackID)) && cbof(c, typ, old(c.callbackID)) == cb && c.callbackID == old(c.callbackID) + 1
+//@   ensures inner_map_kept_or_new: ite(old(has(c.callbacks, typ)), c.callbacks[typ] == old(c.callbacks[typ]), fresh(c.callbacks[typ]))
+//@   ensures other_typed_subscriptions_untouched: all(e, "string", all(k, "int", !(e == typ && k == old(c.callbackID)) ==> reg(c, e, k) == old(reg(c, e, k)) && (reg(c, e, k) ==> cbof(c, e, k) == old(cbof(c, e, k)))))
+//@   ensures all_subscriptions_untouched: all(k, "int", has(c.callbacksAll, k) == old(has(c.callbacksAll, k)) && c.callbacksAll[k] == old(c.callbacksAll[k]))
+
+//@ func Connection.SubscribeMessages
+//@   requires c != nil && connok(c)
+//@   assume id_counter_does_not_overflow: c.callbackID < 9223372036854775807
+//@   modifies c.callbackID, mapcell(c.callbacks), mapcell(c.callbacks[""]), mapcell(old(c.callbacks[""]))
+//@   ensures invariant_kept: connok(c)
+//@   ensures registered_under_the_empty_type: reg(c, "", old(c.callbackID)) && cbof(c, "", old(c.callbackID)) == cb && c.callbackID == old(c.callbackID) + 1
+//@   ensures other_typed_subscriptions_untouched: all(e, "string", all(k, "int", !(e == "" && k == old(c.callbackID)) ==> reg(c, e, k) == old(reg(c, e, k)) && (reg(c, e, k) ==> cbof(c, e, k) == old(cbof(c, e, k)))))
+//@   ensures all_subscriptions_untouched: all(k, "int", has(c.callbacksAll, k) == old(has(c.callbacksAll, k)) && c.callbacksAll[k] == old(c.callbacksAll[k]))
+
+//@ func Connection.SubscribeToAll
+//@   requires c != nil && connok(c)
+//@   assume id_counter_does_not_overflow: c.callbackID < 9223372036854775807
+//@   modifies c.callbackID, mapcell(c.callbacksAll)
+//@   ensures invariant_kept: connok(c)
+//@   ensures registered_for_every_type: has(c.callbacksAll, old(c.callbackID)) && c.callbacksAll[old(c.callbackID)] == cb && c.callbackID == old(c.callbackID) + 1
+//@   ensures other_all_subscriptions_untouched: all(k, "int", k != old(c.callbackID) ==> has(c.callbacksAll, k) == old(has(c.callbacksAll, k)) && c.callbacksAll[k] == old(c.callbacksAll[k]))
+//@   ensures typed_subscriptions_untouched: all(e, "string", all(k, "int", reg(c, e, k) == old(reg(c, e, k)) && cbof(c, e, k) == old(cbof(c, e, k))))
+
+// Connection.Buffer only records the two values; Connection.read$1 forwards them to the parser (C20).
+//@ func Connection.Buffer
+//@   requires c != nil
+//@   modifies c.buf, c.bufMaxSize
+//@   ensures both_values_recorded: c.buf == buf && c.bufMaxSize == maxSize
+
 //@ func Connection.addSubscriber
 //@   requires c != nil && connok(c)
 //@   assume id_counter_does_not_overflow: c.callbackID < 9223372036854775807
 //@   modifies c.callbackID, mapcell(c.callbacks), mapcell(c.callbacks[event])
 //@   ensures invariant_kept: connok(c)
 //@   ensures registered_under_fresh_id: reg(c, event, old(c.callbackID)) && cbof(c, event, old(c.callbackID)) == cb && c.callbackID == old(c.callbackID) + 1
+//@   ensures inner_map_kept_or_new: ite(old(has(c.callbacks, event)), c.callbacks[event] == old(c.callbacks[event]), fresh(c.callbacks[event]))
 //@   ensures other_typed_subscriptions_untouched: all(e, "string", all(k, "int", !(e == event && k == old(c.callbackID)) ==> reg(c, e, k) == old(reg(c, e, k)) && (reg(c, e, k) ==> cbof(c, e, k) == old(cbof(c, e, k)))))
 //@   ensures all_subscriptions_untouched: all(k, "int", has(c.callbacksAll, k) == old(has(c.callbacksAll, k)) && c.callbacksAll[k] == old(c.callbacksAll[k]))
 
